@@ -141,6 +141,10 @@ func needGap(a, b string) bool {
 	if wordEdge(x) && wordEdge(y) {
 		return true
 	}
+	// a partial date/time literal followed by '-'/'+' and digits would be read as a longer literal or an offset
+	if a[0] == '@' && (y == '-' || y == '+') {
+		return true
+	}
 	// a NUMBER followed by '.' then digits would merge into a decimal; '/' '/' or '/' '*' would open a comment
 	if (x == '/' && (y == '/' || y == '*')) || (x == '*' && y == '/') {
 		return true
